@@ -80,7 +80,11 @@ def run(ctx: Context) -> None:
         rets = ff.returns()
         ctx.need('R12.2', len(rets) == 1, "_find_ocean_floor_indexes has one return", ff)
         am = mf.stmt('$max = $$counted.argmax($$d1)')
-        ok_argmax = am is not None and mf.match('return $max', rets[0], commit=False)
+        # the index selects one layer per column with isel: xarray cannot do that with an array dask has not computed
+        concrete = am is not None and any(mf.match(alt, rets[0], commit=False) for alt in ('return $max.compute()', 'return $max.load()'))
+        ctx.check('R12.2', bool(concrete), "the floor index is computed before it is used as an indexer (a lazy dask index makes isel raise for every chunked or multi-file dataset)", ff, rets[0],
+                  construct=f"returned: {norm_text(rets[0].value)[:80]}")
+        ok_argmax = am is not None and (concrete or mf.match('return $max', rets[0], commit=False))
         ctx.check('R12.2', bool(ok_argmax), "the floor index is an argmax (last layer of a non-decreasing valid count)", ff, am or rets[0],
                   construct=f"reducer: {norm_text(am.value.func) if am is not None else norm_text(rets[0].value)}")
         cs_ = None
@@ -104,6 +108,19 @@ def run(ctx: Context) -> None:
         dcp, nsp = of.params[1], of.params[2]
         dims_st = mo.stmt(f"$ddims = utils.dimensions_from_coords({ds}, {dcp})")
         nsd_st = mo.stmt(f"$nsd = utils.dimensions_from_coords({ds}, {nsp})")
+        # a coordinate without a dimension (the time of one selected record) names no dimension: dims[0] is only read when there is one
+        dfc = ctx.func('emsarray.utils.dimensions_from_coords')
+        from .common import guards as _g12
+        firsts = [n for n in ast.walk(dfc.node) if isinstance(n, ast.Subscript) and const_value(n.slice, None) == 0 and norm_text(n.value).endswith('.dims')]
+        ok_sc = bool(firsts)
+        for n in firsts:
+            owner = norm_text(n.value)
+            g = _g12(dfc, n)
+            ok_sc = ok_sc and ((f"len({owner}) == 0", False) in g or (f"len({owner}) >= 1", True) in g or (f"len({owner}) > 0", True) in g
+                               or (f"len({owner}) == 1", True) in g or (owner, True) in g)
+        ctx.check('R12.3', ok_sc, "dimensions_from_coords skips a scalar coordinate: after isel(time=i) the time coordinate has no dimension, and ocean_floor "
+                  "(whose documentation advises slicing time first) must not fail on it", dfc, firsts[0] if firsts else dfc.node,
+                  construct=f"reads of dims[0]: {[(norm_text(n), _g12(dfc, n)) for n in firsts]}"[:300])
         # the bounds variables of the depth coordinates go with them
         bnames = mo.stmt(f"$bnames = {{utils.name_to_data_array({ds}, $c).attrs.get('bounds') for $c in {dcp}}}")
         bdrop = None
@@ -211,6 +228,8 @@ from ..variants import V  # noqa: E402
 _D = 'src/emsarray/operations/depth.py'
 _B = 'src/emsarray/conventions/_base.py'
 VARIANTS = [
+    V('C12', 'scalar-coordinate-indexed', 'src/emsarray/utils.py', "        if len(coordinate.dims) == 0:\n            # A scalar coordinate, such as the time of one selected record,\n            # has no dimension\n            continue\n", "", 'R12.3'),
+    V('C12', 'floor-index-left-lazy', _D, "    return cast(xarray.DataArray, max_depth_indexes.compute())", "    return cast(xarray.DataArray, max_depth_indexes)", 'R12.2'),
     V('C12', 'depth-bounds-kept', _D, "    dataset = dataset.drop_vars([\n        name for name in depth_bounds_names if name in dataset.variables])\n", "", 'R12.3'),
     V('C12', 'example-first-variable', _D, "            data_array = dataset.data_vars[example_name].isel(", "            data_array = dataset.data_vars[variable_names[0]].isel(", 'R12.3'),
     V('C12', 'deep-to-shallow-true', _D, "        positive_down=True, deep_to_shallow=False)", "        positive_down=True, deep_to_shallow=True)", 'R12.1'),
